@@ -16,9 +16,10 @@
    A process crash (Crash i) drops everything instance i holds in memory.
    Fields jobs/committed/rolled are history variables (not present in the code); they
    only record what happened so that theorems can speak about it.
-   Correspondence suite: harness/suites/C13.py (suite "default": real DefaultScheduler
-   objects driven step by step against `run`; suite "select": get_scheduled_jobs_to_start
-   against `candidates`).  No proofs in this file. *)
+   Correspondence: harness/suites/C13.py - suites "corpus", "systematic", "default": real
+   DefaultScheduler objects driven step by step against `view (run cfg steps init)`; suite
+   "components": get_scheduled_jobs_to_start against `candidates`, _capture_scheduled_job
+   against `cas`.  No proofs in this file. *)
 From Coq Require Import List NArith Bool Arith.
 Import ListNotations.
 Open Scope N_scope.
